@@ -217,4 +217,31 @@ theorem C31_witness_split_ref :
 theorem C31_not_conforms : ¬ C31_Conforms T :=
   C31_not_conforms_of T cfg127 _ _ C31_witness_split_differs.2.1 C31_witness_split_ref
 
+/-! ### hardening round: the driver's loop, RFC 7541 §4.2 -/
+
+/-- the loop the driver runs for every case (`writeLoopE`, with the emit callback of bfe_http2/frame.go) is, for the
+    plain callback, the loop of the theorems above: same fields, same error, same final table -/
+theorem C31_plain_callback_is_model (c : Cfg) (chunks : List (List Nat)) :
+    (decodeChunksE T c .none chunks).fields = (decodeChunks T c chunks).fields ∧
+    (decodeChunksE T c .none chunks).err.bind EErr.toD = (decodeChunks T c chunks).err ∧
+    (decodeChunksE T c .none chunks).tab = (decodeChunks T c chunks).tab :=
+  decodeChunksE_none T c chunks
+
+/-- **RFC 7541 §4.2 at full strength**: a block with a dynamic table size update after a field representation is
+    a decoding error.  NOT enforced by the code (known finding `accepted-size-update-after-field`). -/
+def C31_UpdateFirst (T : Tables) : Prop :=
+  ∀ (c : Cfg) (bytes : List Nat), rfcUpdateAfterField T c bytes = true → (decodeChunks T c [bytes]).err.isSome = true
+
+/-- `82 20` = indexed field `:method GET`, then "table size := 0" in the middle of the block: accepted -/
+theorem C31_witness_update_after_field :
+    rfcUpdateAfterField T cfg0 [0x82, 0x20] = true ∧ (decodeChunks T cfg0 [[0x82, 0x20]]).err = none ∧
+    (decodeChunks T cfg0 [[0x82, 0x20]]).tab.maxSize = 0 := by
+  decide +kernel
+
+theorem C31_not_update_first : ¬ C31_UpdateFirst T := by
+  intro h
+  have h1 := h cfg0 [0x82, 0x20] C31_witness_update_after_field.1
+  rw [C31_witness_update_after_field.2.1] at h1
+  cases h1
+
 end BfeVerif.C31
